@@ -619,7 +619,7 @@ Section Refine.
                                  (filter (fun t => negb (str_eqb (snd t) (d_dg d))) (g_tags g)) (g_other g).
   Proof.
     intros Hi L Hs V. pose proof Hi as [I _]. destruct (I _ _ _ L) as (Hh & Sj & _).
-    unfold man_delete. destruct (indexable (d_mt d) && negb (rs_supported rst)).
+    unfold man_delete. destruct (indexable_del (d_mt d) && negb (rs_supported rst)).
     - destruct (man_fetch_hit g n d c Hi L Hs V) as [t1 E1]. rewrite E1.
       rewrite Hs, N.eqb_refl, <- Hh, str_eqb_refl. cbn [negb orb]. rewrite Sj.
       destruct (delete_man_hit g (n + 1) d _ L V) as (g' & t2 & E2 & St). rewrite E2.
@@ -632,7 +632,7 @@ Section Refine.
     lookup (d_dg d) (g_mans g) = None -> valid_digest (d_dg d) = true ->
     exists n' t, man_delete H parse_mt subject_of main S ex0 (g, n) rst d = ((g, n'), rst, t, RErr ENotFound).
   Proof.
-    intros L V. unfold man_delete. destruct (indexable (d_mt d) && negb (rs_supported rst)).
+    intros L V. unfold man_delete. destruct (indexable_del (d_mt d) && negb (rs_supported rst)).
     - destruct (man_fetch_miss g n d L V) as [t1 E1]. rewrite E1. eauto.
     - destruct (delete_man_miss g n d L V) as [t1 E1]. rewrite E1. eauto.
   Qed.
